@@ -254,6 +254,42 @@ impl Job {
             },
         })
     }
+    /// A sibling execution: the SAME payload with one option changed (another mask, a lower level, the mode left
+    /// automatic or forced to Byte), chosen so that a symbol still exists. Monitors run it on the same thread right
+    /// after the original: anything the crate keeps between calls and keys on too little (payload only, payload +
+    /// version ...) would hand the sibling the original's data. None for crafted jobs (their payload depends on the
+    /// cell) and when no admissible variation exists.
+    pub fn sibling(&self, caps: &tables::Caps) -> Option<Job> {
+        if self.aux[3] != 0 {
+            return None;
+        }
+        let payload = self.payload();
+        let class = tables::classify(&payload);
+        let mut s = self.clone();
+        s.payload = Some(payload.clone());
+        let fits = |j: &Job| {
+            let mode = j.mode.unwrap_or(class);
+            if !tables::mode_accepts(mode, &payload) {
+                return false;
+            }
+            match caps.vmin(j.level.unwrap_or(tables::Q), mode, payload.len()) {
+                Some(vm) => j.version.map_or(true, |f| f >= vm),
+                None => false,
+            }
+        };
+        for attempt in 0..3u64 {
+            let mut t = s.clone();
+            match (self.seed.wrapping_add(attempt)) % 3 {
+                0 => t.mask = Some((self.mask.unwrap_or(7) + 1 + (self.seed % 7) as usize) % 8),
+                1 => t.level = Some(self.level.unwrap_or(tables::Q).saturating_sub(1)),
+                _ => t.mode = if self.mode.is_some() { if self.mode == Some(2) { None } else { Some(2) } } else { Some(class) },
+            }
+            if (t.mask, t.level, t.mode) != (self.mask, self.level, self.mode) && fits(&t) {
+                return Some(t);
+            }
+        }
+        None
+    }
     /// key for "distinct" counting
     pub fn key(&self, payload: &[u8]) -> u64 {
         let mut h = oracle::rng::fnv(payload);
